@@ -126,6 +126,12 @@ def main(tier, only=None):
                            defines=("MH_N=%d" % len(sq), "MH_0=%d" % pad[0], "MH_1=%d" % pad[1], "MH_2=%d" % pad[2]),
                            desc="operations issued on the macro table by the driver for this -D/-U command line"))
         e1.run_set(chk, "c14/driver.c", hs, workers=8, extra_src=[os.path.join(vf.REPO, "strings.c")])
+    if not only or "history" in only or "cmdline" in only:
+        chk.bounds += ["history/cc1-cmdline: the cc1 child of `cc -c <opts> a.c` for <opts> in {-UA -DA=3, -DA=3 -UA, -U B -DB=2 -U A}: by the time the source is read the macro table "
+                       "has received init_macros and then exactly these operations in command-line order, wherever main()/parse_args()/cc1() issue them (listed command lines, no symbolic argv)"]
+        e1.run_set(chk, "c14/cc1.c", [e1.H("h_cc1_macro_order", "history/cc1-cmdline/%s" % nm, unwind=40, timeout=300, defines=("MO_SEQ=%d" % k,),
+                                            desc="operations applied to the macro table before the source is read") for k, nm in enumerate(("UA+DA=3", "DA=3+UA", "U_B+DB=2+U_A"))],
+                   workers=3, extra_src=[os.path.join(vf.REPO, "strings.c")])
     if not only or "history" in only or "macros" in only:
         chk.bounds += ["history/macro-table: every history of <= 4 operations over {#define A (two bodies/kinds), #undef A, builtin A, -D A, #define B, #undef B} through the real "
                        "add_macro/define_macro/undef_macro/add_builtin, observed through the real find_macro (symbolic history)"]
